@@ -165,6 +165,12 @@ def witness_crate(d: Decl, extra_inputs=()):
            ref_module(d, string_errors=True)]
     R = 'ref_%s' % d.id
     out.append('fn esc(s: &str) -> String { let mut o = String::new(); for c in s.chars() { match c { \'"\' => o.push_str("\\\\\\""), \'\\\\\' => o.push_str("\\\\\\\\"), c if (c as u32) < 0x20 => o.push_str(&format!("\\\\u{:04x}", c as u32)), c => o.push(c) } } o }\n')
+    if 'Deserialize' in d.derives and d.family == 'string':
+        out.append('pub struct NtBytes<\'a>(pub &\'a [u8]);\n'
+                   'impl<\'de, \'a> serde::Deserializer<\'de> for NtBytes<\'a> {\n    type Error = serde::de::value::Error;\n'
+                   '    fn deserialize_any<V: serde::de::Visitor<\'de>>(self, _v: V) -> Result<V::Value, Self::Error> { Err(<Self::Error as serde::de::Error>::custom("not a newtype struct")) }\n'
+                   '    fn deserialize_newtype_struct<V: serde::de::Visitor<\'de>>(self, _name: &\'static str, v: V) -> Result<V::Value, Self::Error> { v.visit_newtype_struct(serde::de::value::BytesDeserializer::new(self.0)) }\n'
+                   '    serde::forward_to_deserialize_any! { bool i8 i16 i32 i64 i128 u8 u16 u32 u64 u128 f32 f64 char str string bytes byte_buf option unit unit_struct seq tuple tuple_struct map struct enum identifier ignored_any }\n}\n')
     out.append('static mut PER_ENTRY: Option<std::collections::HashMap<String, usize>> = None;\n'
                'fn report(entry: &str, input: &str, setting: &str, real: String, expected: String, n: &mut usize) {\n'
                '    if real != expected { *n += 1; let c = unsafe { let m = PER_ENTRY.get_or_insert_with(Default::default); let e = m.entry(entry.to_string()).or_insert(0); *e += 1; *e }; if c <= 3 { println!("{{\\"entry\\":\\"{}\\",\\"input\\":\\"{}\\",\\"bounds\\":\\"{}\\",\\"real\\":\\"{}\\",\\"expected\\":\\"{}\\"}}", esc(entry), esc(input), esc(setting), esc(&real), esc(&expected)); } }\n}\n')
@@ -219,6 +225,13 @@ def witness_crate(d: Decl, extra_inputs=()):
                     'else if tag == " in Option" { match serde_json::from_str::<Option<%s>>(&d2) { Ok(Some(v)) => format!("Ok({:?})", v.into_inner()), _ => "Err".to_string() } } '
                     'else { match serde_json::from_str::<%s>(&d2) { Ok(v) => format!("Ok({:?})", v.into_inner()), Err(_) => "Err".to_string() } };\n' % (S, S, S))
         body.append('            report("Deserialize", &format!("JSON {}{}", d2, tag), setting, real_de, expected_de.clone(), n);\n        }\n    } }\n')
+        if d.family == 'string':
+            # newtype-protocol documents that hand the text over as UTF-8 bytes
+            body.append('    {\n        let via_string: Result<String, serde::de::value::Error> = <String as serde::Deserialize>::deserialize(serde::de::value::BytesDeserializer::new(x.as_bytes()));\n'
+                        '        let expected_b = match via_string { Ok(s0) => %s, Err(_) => "Err".to_string() };\n'
+                        % (('match %s::try_new(s0) { Ok(i) => format!("Ok({:?})", i), Err(_) => "Err".to_string() }' % R) if has_v else 'format!("Ok({:?})", %s::sanitize(s0))' % R))
+            body.append('        let real_b = match <%s as serde::Deserialize>::deserialize(NtBytes(x.as_bytes())) { Ok(v) => format!("Ok({:?})", v.into_inner()), Err(_) => "Err".to_string() };\n' % S)
+            body.append('        report("Deserialize", &format!("newtype struct around the UTF-8 bytes of {}", label), setting, real_b, expected_b, n);\n    }\n')
         body.append('    for bad in ["null", "[]", "{}", "true"] { report("Deserialize", &format!("JSON {}", bad), setting, if serde_json::from_str::<%s>(bad).is_ok() { "Ok".to_string() } else { "Err".to_string() }, "Err".to_string(), n); }\n' % S)
     # views on the obtained value
     ctor = '%s::try_new(x.clone()).ok()' % S if has_v else 'Some(%s::new(x.clone()))' % S
